@@ -35,7 +35,7 @@ class C20:
         site = f"{self.file}:{s.node.lineno} rasterize"
         geoms, arr, values = ("param", "geometries"), ("param", "array"), ("param", "values")
         xdim, ydim = ("param", "xdim"), ("param", "ydim")
-        rc = [e for e in s.calls if e.term[1][0] == "ext" and e.term[1][1].endswith("features.rasterize")]
+        rc = [e for e in s.calls if e.term[0] == "call" and isinstance(e.term[1], tuple) and e.term[1][0] == "ext" and e.term[1][1].endswith("features.rasterize")]
         if len(rc) != 1:
             ctx.undec("R20.1", site, f"{len(rc)} rasterio rasterize calls")
             return
